@@ -24,6 +24,8 @@ def c17(run):
     r_file.run_raw_packet(run, P)
     r_file.run_load_order(run, P)
     r_file.run_track_order(run, P)
+    from rules import r_misc12
+    r_misc12.run_observe_codes_agree(run, P)
     from rules import r_cmpbound as _cb
     _cb.run_identity(run, P)
     run.min_instances('R-FILE-MODE', 14)
@@ -105,6 +107,8 @@ def c12(run):
     P = run.prog('rel')
     r_session.run_ref_tmp(run, P)
     r_session.run_rel_owed(run, P)
+    from rules import r_expiry
+    r_expiry.run(run, P)
     r_session.run_ref_hold(run, P)
     r_session.run_ref_stale(run, P)
     r_session.run_sess_evt(run, P)
@@ -335,6 +339,8 @@ def c08(run):
     r_cnt.run_flush_order(run, P)
     r_cnt.run_scan_head(run, P)
     r_cnt.run_park_reasons(run, P)
+    from rules import r_misc12
+    r_misc12.run_no_callout_in_window(run, P)
     from rules import r_delayq
     r_delayq.run(run, P)                 # if the session fails, each held Confirmable is reported by a NACK
     from rules import r_midzero
@@ -358,6 +364,8 @@ def c06(run):
     r_ownnode.run_retrans(run, P)
     r_ownnode.run_waitack(run, P)
     r_ownnode.run_queue_key(run, P)
+    from rules import r_misc12
+    r_misc12.run_timeout_drawn(run, P)
     from rules import r_cnt
     r_cnt.run_counted_queued(run, P)     # a counted Confirmable is queued for retransmission (or un-counted): it cannot vanish without an outcome
     from rules import r_timer
@@ -462,6 +470,8 @@ def c20(run):
     run.require(n >= 4, 'R-CMP-BOUND: fewer than 4 comparisons found in the query-filter code (match, coap_print_wellknown_lkd, coap_find_attr)')
     run.min_instances('R-OUT-BOUND', 10)
     run.assumptions = ASSUME_COMMON + ["window / total / truncation-flag exactness are NOT decided; of the filter semantics only 'a token is compared over its own length' is"]
+    from rules import r_misc12
+    r_misc12.run_literal_length(run, P)   # the listing's fixed pieces (";obs", ";osc", ...) are copied with their own length
     return run.finish(
         "Two clauses of C20 are decided: the listing is never written behind the window the caller supplied. Every store through the output cursor "
         "of coap_print_link / coap_print_wellknown_lkd happens on a path that holds cursor < end for the current cursor value, and the space handed "
@@ -478,6 +488,8 @@ def c19(run):
     r_route.run_event_reset(run, P)
     r_route.run_sni_cache(run, P)
     r_route.run_establishers(run, P)
+    from rules import r_expiry
+    r_expiry.run(run, P)                 # half-open sessions are cleared down when they are old, not while their handshake is in progress
     from rules import r_delayq
     r_delayq.run(run, P)
     from rules import r_cnt
